@@ -63,9 +63,9 @@ struct R : Runner {
 			case OP_sub: return Tr::out(x - Tr::mk(a[1]));
 			case OP_mul: return Tr::out(x * Tr::mk(a[1]));
 			case OP_div: return Tr::out(x / Tr::mk(a[1]));
-			case OP_rcp: return Tr::out(x.reciprocal());
+			case OP_rcp: if constexpr (requires(T t) { t.reciprocal(); }) return Tr::out(x.reciprocal()); else return "?unsupported";
 			case OP_neg: return Tr::out(-x);
-			case OP_abs: return Tr::out(abs(x));
+			case OP_abs: if constexpr (requires(T t) { t.abs(); }) return Tr::out(abs(x)); else return "?unsupported";
 			case OP_sqrt: return Tr::out(sqrt(x));
 			case OP_inc: { ++x; return Tr::out(x); }
 			case OP_dec: { --x; return Tr::out(x); }
@@ -82,8 +82,12 @@ struct R : Runner {
 	void extra(const std::string& ha, Rng& g, const std::function<void(int, std::vector<std::string>)>& emit) override {
 		if (g_group != "conv" && g_group != "all1") return;
 		bool first = ha.find_first_not_of('0') == std::string::npos;
-		T x = Tr::mk(ha); T y = x; ++y;
-		native_sources(double(x), double(y), first, g, emit);
+		// the lattice values are computed from the bits by the driver (not by the library), so that two builds
+		// of the library are always fed identical source lists
+		uint64_t ab = (N <= 64) ? hexu64(ha.size() > 16 ? ha.substr(ha.size() - 16) : ha) : 0;
+		double v = (N <= 64) ? posit_bits_to_double(N, ES, ab) : 0.0;
+		double v2 = (N <= 64) ? posit_bits_to_double(N, ES, ab + 1) : 0.0;
+		native_sources(v, v2, first, g, emit);
 		emit(OP_to_int, {"20", ha}); emit(OP_to_int, {"40", ha});
 	}
 	std::vector<bool> gen(Rng& g) override { return gen_operand(g, N); }
